@@ -34,7 +34,7 @@ m = {
     ],
     "checks": checks,
     "not_applicable": [{"property_id": k, "reason": v} for k, v in sorted(NOT_APPLICABLE.items())],
-    "notes": "See DESIGN.md. Exit codes: 0 held, 1 violation (VIOLATION line), 2 undecided (solver unknown / construct outside the verified subset; never reported as a violation), 3 checker error.",
+    "notes": "See DESIGN.md. Exit codes: 0 held, 1 violation (VIOLATION line), 2 undecided (solver unknown / construct outside the verified subset; never reported as a violation), 3 checker error. Self-tests kept in the tree: seeded/ (100 property-breaking changes by independent sub-agents, all reported by the quick checks; tools/seed_sweep.py) and benign/ (60 behaviour-preserving refactorings; expected exit 0; tools/benign_sweep.py) - both run on scratch copies via VERIF_REPO, never on /repo and never as part of a registered command. known_findings.jsonl lists the open findings and the fix: commits.",
 }
 json.dump(m, open(os.path.join(ROOT, "MANIFEST.json"), "w"), indent=1)
 print("wrote MANIFEST.json with", len(checks), "checks;", len(m["not_applicable"]), "not applicable")
